@@ -516,10 +516,16 @@ func (a *allowerContext) aliasEventAllowed(event PDU) error {
 	// https://github.com/matrix-org/synapse/blob/v0.18.5/synapse/api/auth.py#L158
 	switch event.Version() {
 	case RoomVersionPseudoIDs:
+		if event.StateKey() == nil {
+			return errorf("alias event has no state_key")
+		}
 		if !event.StateKeyEquals(string(event.SenderID())) {
 			return errorf("alias state_key does not match sender domain, %q != %q", event.SenderID(), *event.StateKey())
 		}
 	default:
+		if event.StateKey() == nil {
+			return errorf("alias event has no state_key")
+		}
 		if !event.StateKeyEquals(string(sender.Domain())) {
 			return errorf("alias state_key does not match sender domain, %q != %q", sender.Domain(), *event.StateKey())
 		}
